@@ -60,6 +60,8 @@ type Action struct {
 	NextRecovery string        `json:"nextRecovery,omitempty"`
 	Consumes     string        `json:"consumes,omitempty"` // commitment of the key the operation reveals
 	LongForm     string        `json:"longForm,omitempty"`
+	From         int64         `json:"anchorFrom,omitempty"` // signed anchoring window of the request (0, 0 = none)
+	Until        int64         `json:"anchorUntil,omitempty"`
 	// acceptedUnder (run time): genesis time of the protocol version in force when the request was accepted
 	acceptedUnder uint64
 }
@@ -321,10 +323,11 @@ func (p *pipeline) expected(d *didModel, withUnpublished bool) (doc *refdoc.Doc,
 	used := make([]bool, len(stored))
 	var descs []*refmodel.Op
 	byName := map[string]*Action{}
+	descByName := map[string]*refmodel.Op{}
 	for i, a := range d.accepted {
 		name := fmt.Sprintf("%d:%s", i, a.Type)
 		byName[name] = a
-		o := &refmodel.Op{Name: name, Type: a.Type, Consumes: a.Consumes, Authorised: true, NextUpdate: a.NextUpdate, NextRecovery: a.NextRecovery, Delta: refmodel.DeltaGood}
+		o := &refmodel.Op{Name: name, Type: a.Type, Consumes: a.Consumes, Authorised: true, NextUpdate: a.NextUpdate, NextRecovery: a.NextRecovery, Delta: refmodel.DeltaGood, From: a.From, Until: a.Until}
 		found := false
 		for j, so := range stored {
 			if !used[j] && string(so.Type) == a.Type && sameJSON(so.OperationRequest, a.Request) {
@@ -343,6 +346,7 @@ func (p *pipeline) expected(d *didModel, withUnpublished bool) (doc *refdoc.Doc,
 			o.Time = 1 << 40
 		}
 		descs = append(descs, o)
+		descByName[name] = o
 	}
 	st := refmodel.Resolve(descs, refmodel.Params{MaxTimeDelta: 7207})
 	if !st.Found {
@@ -351,6 +355,14 @@ func (p *pipeline) expected(d *didModel, withUnpublished bool) (doc *refdoc.Doc,
 	doc = refdoc.New()
 	for _, n := range st.Applied {
 		a := byName[n]
+		// outside its signed window an update or recover consumes its commitment without changing / populating the
+		// document (the anchoring time of a pending copy is the node's wall clock)
+		if o := descByName[n]; a.Type != "create" && !refmodel.InWindow(o.From, o.Until, o.Time, 7207) {
+			if a.Type == "recover" {
+				doc = refdoc.New()
+			}
+			continue
+		}
 		switch a.Type {
 		case "create", "recover":
 			nd, err := refdoc.Apply(refdoc.New(), a.Patches)
@@ -628,7 +640,7 @@ type clientDID struct {
 
 func TestPipeline(t *testing.T) {
 	ev.Rule(chk, "rapid workloads over the whole pipeline made of real parts ((REST operations endpoint ->) DocumentHandler -> batch.Writer driven through the verif hook -> OperationHandler -> in-memory CAS -> recording ledger assigning time, non-monotone number, canonical and equivalent references -> Observer -> TxnProcessor -> operation store -> OperationProcessor -> didtransformer): 1-5 DIDs, 3-25 client operations (create / update / recover / deactivate with patch lists over all eight actions, all key types), drawn flush points (monitor / timeout ticks), maxOperationCount 1-4, operations submitted while an earlier one for the DID is still queued, one or two protocol versions (second one with sha2-512 first, fewer patch actions, later genesis time), with and without an unpublished-operation store, with and without two method contexts on the transformers; every result the node hands out stays held (last 16) and must not change while later requests are served; oracle: every stored operation carries the protocol version that was in force when it was accepted; after every flush and at the end every DID resolves (ResolveDocument) to the kit/refdoc + reference prediction over its accepted operations in anchoring order (document projection, commitments, deactivated, published flag and canonical id once anchored); create response == long-form resolution before anchoring == short-form resolution after anchoring (modulo the DID string); non-trivial = a DID with >= 3 applied operations including a recover or deactivate, or an operation submitted while another is queued, or a version switch")
-	ev.Rapid(t, chk, 60, 1200, func(t *rapid.T) {
+	ev.Rapid(t, chk, 200, 1500, func(t *rapid.T) {
 		c := &Case{Max: uint(rapid.IntRange(1, 4).Draw(t, "max")), TwoVersions: rapid.Bool().Draw(t, "twoVersions"), Unpublished: rapid.Bool().Draw(t, "unpublishedStore"), MethodContexts: rapid.Bool().Draw(t, "methodContexts"), ViaREST: rapid.Bool().Draw(t, "viaRest")}
 		p := newPipeline(c)
 		defer p.close()
@@ -679,6 +691,11 @@ func TestPipeline(t *testing.T) {
 				typ := rapid.SampledFrom([]string{"update", "update", "update", "recover", "deactivate"}).Draw(t, "type")
 				a.Type = typ
 				s := &asm.Signed{Type: typ, Suffix: cl.suffix, Code: cl.code}
+				// one request in three signs an anchoring window: open on the ledger's clock; (1, 0) closes long before the
+				// wall-clock stamp a pending copy carries, the others stay open for it too
+				w := rapid.SampledFrom([][2]int64{{0, 0}, {0, 0}, {0, 0}, {0, 0}, {1, 0}, {1, 1 << 41}, {900, 1 << 41}}).Draw(t, "window")
+				s.From, s.Until = w[0], w[1]
+				a.From, a.Until = w[0], w[1]
 				switch typ {
 				case "update":
 					next := keys.Get(kt, fmt.Sprintf("c20-%d", di), 10+cl.n)
